@@ -543,7 +543,11 @@ class Check:
             "coverage": cov, "assumptions": self.assumptions,
             "wall_s": round(time.time() - self.t0, 2), "violations": new,
         }
-        with open(os.path.join(VERIF, "evidence", f"{self.pid}.json"), "w") as fh:
+        # evidence/ only ever describes runs against /repo itself; a run against a scratch tree (VERIF_REPO, used to
+        # try seeded changes) leaves its record under evidence_scratch/ (not committed)
+        ev_dir = "evidence" if os.path.realpath(REPO) == os.path.realpath("/repo") else "evidence_scratch"
+        os.makedirs(os.path.join(VERIF, ev_dir), exist_ok=True)
+        with open(os.path.join(VERIF, ev_dir, f"{self.pid}.json"), "w") as fh:
             json.dump(ev, fh, indent=1, default=str)
         for ln in lines:
             print(ln)
